@@ -631,6 +631,17 @@ def r9_same_rejections_as_a_model(R, sh) -> None:
         R.violation(Q, 'linker-accepts-contradictory-limits',
                     'BaseLinker.solve_t() has no `min_iter > max_iter` rejection: solve_t(t, min_iter=9, max_iter=3) runs 3 iterations and records F where the model alone raises '
                     'ValueError (only BaseLinker.solve() checks)', where=sh.fi.where)
+    # ... and what it does about non-finite values (errors=): the linker accepts the option and hands it to the submodels'
+    # evaluation, but the pass loop itself must apply the policy too (E / S statuses, SolutionError, replace)
+    from fsa.match import nonfinite_test
+    nf = [n for n in f.cfg.nodes if n.kind == 'test' and n.ast is not None and any(nonfinite_test(x) is not None or is_call(x, 'np.isfinite', 'numpy.isfinite', 'np.isnan')
+                                                                                  for x in ast.walk(n.ast))]
+    if not nf:
+        R.violation(Q, 'linker-no-errors-policy',
+                    "BaseLinker.solve_t() takes `errors=` but never tests the check values for NaN / infinity: with G = [10, nan, 10] a model alone gives statuses '. E -' and SolutionError "
+                    "(errors='raise') or '. S .' (errors='skip'); wrapped in a linker it iterates to max_iter, records 'F' and raises NonConvergenceError", where=sh.fi.where)
+    else:
+        R.check(True, Q, 'linker-errors-policy', 'the linker tests its check values for non-finite values', '', where=f.where(nf[0]))
     feas = [r_ for r_ in f.raises('IndexError') if any(('self.lags' in text(a_) or "['lags']" in text(a_) or 'self.LAGS' in text(a_)) for (a_, _tr, _t) in f.guard_atoms(r_.id))
             and any(('self.leads' in text(a_) or "['leads']" in text(a_) or 'self.LEADS' in text(a_)) for (a_, _tr, _t) in f.guard_atoms(r_.id))]
     if not feas:
